@@ -8,8 +8,9 @@ import time
 import traceback
 
 VERIF = os.path.dirname(os.path.dirname(os.path.abspath(__file__)))
-EVID = os.path.join(VERIF, 'evidence')
-REPLAYS = os.path.join(VERIF, 'replays')
+# VERIF_EVIDENCE_DIR / VERIF_REPLAYS_DIR redirect the outputs of experimental runs (seed cycles, benign-edit sweeps) away from the committed files
+EVID = os.environ.get('VERIF_EVIDENCE_DIR') or os.path.join(VERIF, 'evidence')
+REPLAYS = os.environ.get('VERIF_REPLAYS_DIR') or os.path.join(VERIF, 'replays')
 KNOWN = os.path.join(VERIF, 'known_findings.json')
 
 TRUSTED_BASE_COMMON = [
@@ -106,6 +107,8 @@ def _verify_lemma(job):
             out['undecided'] = f'{out["lemma"]}: {u}'
         out['stats'] = dict(ex.stats, paths=ex.explorer.paths, wall=0)
         out['abstracted'] = sorted(ex.notes_abstracted)
+        out['inlined'] = sorted(ex.funcs_entered)
+        out['by_contract'] = sorted(ex.funcs_by_contract)
         for oid in ex.ob_order:
             ob = ex.obligations[oid]
             r = _discharge(ob, tier)
@@ -209,8 +212,34 @@ def main(argv=None):
         extra['selftest_mutants'] = run_mutants(prop_id, mod, a, ctx, idxs)
     if (a.tier == 'thorough' or a.xcheck) and not a.only:
         extra['encoding_crosscheck'] = run_xcheck(prop_id, seed, a.jobs)
+    if (a.tier == 'thorough' or a.xcheck) and not a.only:
+        extra['trusted_contract_sampling'] = run_trusted_samples(seed * 100 + (int(prop_id[1:]) if prop_id[1:].isdigit() else 0), a.repo)
     rc, summary = report(prop_id, a.tier, seed, results, mod, a, t0, extra=extra)
     return rc
+
+
+def run_trusted_samples(seed, repo):
+    """the assumed contracts of external primitives against the real primitives (replay/trusted_samples.py); bounded, never counted as
+    discharged.  An assumption counts as falsified only if it is falsified twice (the samplers use real time-outs)"""
+    import subprocess
+
+    def once(s):
+        env = dict(os.environ, PYTHONPATH=repo)
+        p = subprocess.run([os.environ.get('XCHECK_PYTHON', '/venv/bin/python'), os.path.join(VERIF, 'replay', 'trusted_samples.py'), str(s)],
+                           capture_output=True, text=True, timeout=300, env=env, cwd=os.path.join(VERIF, 'replay'))
+        return json.loads(p.stdout.strip().splitlines()[-1])
+    try:
+        r = once(seed)
+        if r['falsified']:
+            again = once(seed + 1)
+            twice = {x['assumption'] for x in again['falsified']}
+            r['falsified_once_only'] = [x for x in r['falsified'] if x['assumption'] not in twice]
+            r['falsified'] = [x for x in r['falsified'] if x['assumption'] in twice]
+        r['label'] = 'bounded sampling of assumed contracts; not counted as discharged'
+        r['results'] = [{k: v for k, v in x.items() if k != 'text'} for x in r['results']]
+        return r
+    except Exception:
+        return {'error': traceback.format_exc()[-1200:], 'falsified': []}
 
 
 def run_xcheck(prop_id, seed, jobs):
@@ -268,14 +297,18 @@ def report(prop_id, tier, seed, results, mod, a, t0, write=True, extra=None):
     undecided = [r['undecided'] for r in results if r['undecided']]
     functions = {}
     abstracted = set()
+    inlined, by_contract = set(), set()
     stats_paths = 0
     for r in results:
         all_obs.extend(r['obligations'])
         for f in r.get('functions', []):
             functions[f[0]] = {'where': f[1], 'sha': f[2]}
         abstracted.update(r.get('abstracted', []))
+        inlined.update(r.get('inlined', []))
+        by_contract.update(r.get('by_contract', []))
         stats_paths += r.get('stats', {}).get('paths', 0)
-    refuted = [o for o in all_obs if not o['ok'] and o['status'] in ('sat', 'unsat')]
+    vacuous = [o for o in all_obs if not o['ok'] and o['status'] in ('sat', 'unsat') and o['kind'] == 'cover']
+    refuted = [o for o in all_obs if not o['ok'] and o['status'] in ('sat', 'unsat') and o['kind'] != 'cover']
     unknown = [o for o in all_obs if o['status'] not in ('sat', 'unsat')]
     disagreements = [o for o in all_obs if o.get('cvc5') and o['cvc5'].get('status') in ('sat', 'unsat')
                      and o['backend'] == 'z3' and o['status'] in ('sat', 'unsat') and o['cvc5']['status'] != o['status']]
@@ -335,6 +368,10 @@ def report(prop_id, tier, seed, results, mod, a, t0, write=True, extra=None):
         for e in errors:
             print(e)
         print(f'ENGINE-FAILURE property={prop_id}')
+    elif vacuous:
+        rc = 3
+        for o in vacuous[:10]:
+            print(f'ENGINE-FAILURE property={prop_id}: vacuity: {o["id"]}: {o["text"]} - NOT satisfiable (a case is excluded: the lemma would hold vacuously for it)')
     elif disagreements:
         rc = 3
         for o in disagreements:
@@ -360,6 +397,11 @@ def report(prop_id, tier, seed, results, mod, a, t0, write=True, extra=None):
         xc = extra['encoding_crosscheck']
         print(f'ENGINE-FAILURE property={prop_id}: the symbolic semantics disagrees with CPython on {xc.get("mismatch")} {xc.get("error", "")} '
               f'(python3-vt tools/xcheck.py --seed {xc.get("seed")} shows the details)')
+    elif extra and extra.get('trusted_contract_sampling', {}).get('falsified'):
+        rc = 3
+        for x in extra['trusted_contract_sampling']['falsified']:
+            print(f'ENGINE-FAILURE property={prop_id}: an assumed contract of an external primitive is FALSIFIED on the real primitive: '
+                  f'{x["assumption"]}: {x["falsified"]}')
     elif len(all_obs) < floor:
         rc = 3
         print(f'ENGINE-FAILURE property={prop_id}: only {len(all_obs)} obligations generated, floor is {floor}')
@@ -391,6 +433,8 @@ def report(prop_id, tier, seed, results, mod, a, t0, write=True, extra=None):
                        for r in results],
             'paths_explored': stats_paths,
             'functions_under_contract': functions,
+            'functions_inlined': sorted(inlined - set(functions)),
+            'functions_called_through_their_contract': sorted(by_contract),
             'dropped_or_abstracted': sorted(abstracted) + list(getattr(mod, 'ABSTRACTED', [])),
             'bounded_parts': list(getattr(mod, 'BOUNDED', [])),
             'samples': samples,
